@@ -107,6 +107,7 @@ class Real:
         self.checks = []         # observations at ['check'] steps
         self.edits = []          # master-side edits: dict(step, t, result, sent(bool), obs_after)
         self.windows = []        # outages: dict(t_down, t_offline, t_up, idx_log_up, …)
+        self.restarts = []       # master restarts: dict(idx, t, before, after)
         self.log = []
         self.value_log = {}
         self.sim_final = None
@@ -168,17 +169,33 @@ async def run_real(hub, case) -> Real:
                 sim.set_device_attrs({st[1]: st[2]})
             elif op == 'rfail':
                 sim.fail_next.add(st[1])
+            elif op == 'rdrop':
+                sim.drop_next.add(st[1])
+            elif op == 'flapdown':
+                sim.set_reachable(False)
+            elif op == 'flapup':
+                sim.set_reachable(True)
 
         window = None
         for idx, st in enumerate(case['steps']):
             op = st[0]
-            if op in ('wait', 'rvalue', 'rattr', 'radd', 'rremove', 'rdev', 'rfail'):
+            if op in ('wait', 'rvalue', 'rattr', 'radd', 'rremove', 'rdev', 'rfail', 'rdrop', 'flapdown', 'flapup'):
                 await remote_step(st)
+            elif op == 'restart':
+                before = await observe(hub, sim)
+                r.trace.append(('restart',))
+                await hub.restart_slaves()
+                for _ in range(5):
+                    await asyncio.sleep(0)
+                after = await observe(hub, sim)
+                r.restarts.append({'idx': idx, 't': hub.loop.time(), 'before': before, 'after': after,
+                                   'log_len': len(sim.log)})
             elif op == 'when':
-                want = {'listen': '/listen', 'ports': '/ports', 'device': '/device'}[st[1]]
+                want = {'listen': '/listen', 'ports': '/ports', 'device': '/device', 'push': None}[st[1]]
                 n0 = len(sim.log)
                 for _ in range(12000):
-                    if any(e['method'] == 'GET' and e['path'].rstrip('/') == want for e in sim.log[n0:]):
+                    if any((e['method'] == 'GET' and e['path'].rstrip('/') == want) if want else e['method'] != 'GET'
+                           for e in sim.log[n0:]):
                         break
                     await asyncio.sleep(0.005)
                 await asyncio.sleep(st[2])
@@ -238,6 +255,8 @@ async def run_real(hub, case) -> Real:
                         break
                     await asyncio.sleep(0.5)
                 await asyncio.sleep(1.5 + 6 * sim.latency + 2 * case.get('poll', 2) * (mode == 'poll'))
+                sim.fail_next.clear()          # injected faults are meant for the pushes of this reconnect only
+                sim.drop_next.clear()
             elif op == 'check':
                 await asyncio.sleep(1.0 + 2 * case.get('poll', 2) * (mode == 'poll') +
                                     (3.0 + 10 * sim.latency) * (mode == 'push'))
@@ -455,6 +474,7 @@ def run_model(case, real: Real, driver, fix=(1, 1)):
         window = None
 
     consumed = set()
+    stopped = [False]
     unstable = {it.port(p['id']) for p in case['ports'] if not p.get('enabled', True)}
     unstable |= {it.port(st[1]) for st in flat_steps(case)
                  if st[0] == 'rremove' or (st[0] in ('rattr', 'mattr') and st[2] == 'enabled')}
@@ -574,6 +594,10 @@ def run_model(case, real: Real, driver, fix=(1, 1)):
                         finish_window(window['dev'], resp if ok else None, 'poll')
         elif tag == 'started':
             pass
+        elif tag == 'restart':
+            # what survives a restart is what had been persisted: not modelled; the replay stops here, the oracle goes on
+            stopped[0] = True
+            tags.add('restart')
         elif tag == 'pushed':
             ev = it.event(e[2])
             if e[2]['type'] in ('port-update', 'port-add'):
@@ -675,6 +699,8 @@ def run_model(case, real: Real, driver, fix=(1, 1)):
         if pos in consumed:
             continue
         handle_entry(pos, e)
+        if stopped[0]:
+            break
     return fail, tags
 
 
@@ -695,6 +721,30 @@ def _is_op_request(st, path):
 def oracle_c13(case, real: Real):
     """C13 sentence by sentence. Returns (Failure|None, tags)."""
     tags = set()
+    # ports the DEVICE removed during an outage (even if it re-created them): the edited port is gone
+    removed_in_window, wcount, inside = {}, -1, False
+    for st in flat_steps(case):
+        if st[0] == 'down' and not inside:
+            wcount += 1
+            inside = True
+        elif st[0] == 'up':
+            inside = False
+        elif st[0] == 'rremove' and inside:
+            removed_in_window.setdefault(wcount, set()).add(st[1])
+    # master restarts: what is reported as pending afterwards is what was pending (and not yet pushed) before
+    for ri, rs_ in enumerate(real.restarts):
+        b, a = rs_['before']['device'], rs_['after']['device']
+        if b is None or a is None:
+            continue
+        tags.add('restart-checked')
+        if sorted(b['provisioning']) != sorted(a['provisioning']):
+            return Failure('property', f'master restart #{ri} (step {rs_["idx"]}): device data reported as pending before '
+                           f'the restart {sorted(b["provisioning"])}, after it {sorted(a["provisioning"])}',
+                           real=[b['provisioning'], a['provisioning']], where='restart-pending'), tags
+        for n in a['provisioning']:
+            if n not in ('webhooks', 'reverse') and a['attrs'].get(n) != b['attrs'].get(n):
+                return Failure('property', f'master restart #{ri}: pending device attribute {n} changed from '
+                               f'{b["attrs"].get(n)!r} to {a["attrs"].get(n)!r}', where='restart-kept'), tags
     for wi, w in enumerate(real.windows):
         if w['t_up'] is None or w['t_offline'] is None:
             continue
@@ -777,7 +827,7 @@ def oracle_c13(case, real: Real):
         nxt = min([c['t'] for c in real.checks if c['t'] > w['t_up']] +
                   [x['t_down'] for x in real.windows if x['t_down'] > w['t_up']], default=None)
         horizon = [e for e in log[:first_ports + 40] if nxt is None or e['t'] < nxt]
-        alive = set(w['ports_at_up'])
+        alive = set(w['ports_at_up']) - removed_in_window.get(wi, set())
         for (pid, n), v in pend_attr.items():
             if pid not in alive:
                 tags.add('edit-of-removed-port')
